@@ -473,8 +473,12 @@ func c13Oracles() map[string]c13Oracle {
 		"log10(Float)": unaryF(math.Log10, true, func(x float64) bool { return x > 0 }),
 		"pow(Float,Float)": func(a []octosql.Value) c13Verdict {
 			x, y := F(a[0]), F(a[1])
+			if math.IsNaN(x) || math.IsNaN(y) {
+				return c13Skip("pow-of-nan")
+			}
 			if !c13Finite(x) || !c13Finite(y) {
-				return c13Skip("pow-of-nan-or-inf")
+				// infinite operands: the IEEE 754 pow table (what math.Pow implements), e.g. pow(-Inf, 0.5) = +Inf
+				return c13WantFT(math.Pow(x, y))
 			}
 			if x == 0 && y <= 0 {
 				return c13Skip("outside-real-domain")
@@ -773,6 +777,7 @@ func init() {
 			"skipped as undefined (counted as skipped/*): Int and Duration division by zero, abs(MinInt64), int() of NaN/Inf/out-of-range floats, sqrt/log of non-positive or negative numbers, pow with NaN/Inf arguments, 0^y for y<=0, negative base with fractional exponent, Time - MinDuration, time_from_unix beyond the representable range, negative list index, IN / NOT IN with a NULL element or with elements of a type different from x",
 			"int(Float) of a fractional number: the description names no rounding mode, floor and ceiling are both accepted",
 			"int(String)/float(String): strings without any ASCII digit must give NULL, ^-?[0-9]+$ (resp. plain decimals with <= 15 digits) must parse, out-of-range integers must give NULL, every other spelling (+7, ' 7', 1e3, 0x10, 1_000, NaN, Inf ...) is skipped as ambiguous",
+			"pow with an infinite operand is judged against the IEEE 754 pow table (math.Pow); NaN operands and the sign of a zero result are not judged",
 			"int(Duration)/float(Duration): the unit is not documented; only the type and the sign of the result are demanded",
 			"string(x): only the result type is demanded, plus the decimal rendering for Int",
 			"time_to_unix of a Time with a fractional second accepts floor and truncation",
